@@ -296,6 +296,14 @@ class RepeatedNodeWrapper(MutableSequence[_M]):
         self._repeated.auto_claim_comments()
 
 
+def drop_cached_views(instance: base.RawTreeModel) -> None:
+    """Forgets the cached views of an instance; they are built on a repeated field's wrapper and go stale when it is replaced."""
+    for cls in type(instance).__mro__:
+        for attr in vars(cls).values():
+            if isinstance(attr, cached_custom_property):
+                instance.__dict__.pop(attr._attr, None)
+
+
 class repeated_node_property(base_rw_property[RepeatedNodeWrapper[_M], base.RawTreeModel]):
     def __init__(self, inner_field: repeated_field[_M]) -> None:
         super().__init__()
@@ -317,6 +325,7 @@ class repeated_node_property(base_rw_property[RepeatedNodeWrapper[_M], base.RawT
         replace_node(repeated, value.repeated)
         self._inner_field.__set__(instance, value.repeated)
         instance.__dict__[self._attr] = value
+        drop_cached_views(instance)
 
 
 def _default_fset(instance: _U, value: _V) -> None:
